@@ -3,6 +3,7 @@ import Gv.Model.Fmt.Nexus
 import Gv.Proofs.StockholmRT
 import Gv.Model.Fmt.Auto
 import Gv.Proofs.NexusRT
+import Gv.Proofs.ReprRows
 /-!
 C02 — every alignment format round-trips losslessly through writer and parser.
 
@@ -10,18 +11,15 @@ C02 — every alignment format round-trips losslessly through writer and parser.
 "the same detected alphabet" is `Model.autoAlphabet` of the rows that were written (goalign's own
 detection over the character classes regenerated from the source).
 
-Proved: FASTA, complete (every wrap width `w > 0`, every number of rows, every length, every
-duplicate-name policy, with or without the proposed "no sequence ⇒ error" patch).
-Open (stated, checked on the implementation by the oracle predicate on every run, see `PARTIAL` in
-driver/props/c02.py):
+Proved: FASTA (every wrap width `w > 0`, every number of rows, every length, every duplicate-name policy,
+with or without the proposed "no sequence ⇒ error" patch), Stockholm, Nexus (repaired parser; the unrepaired
+one has the kernel-checked counter-example below), Phylip (`roundtrip_phylip`: all 8 combinations of
+strict / one-line / no-block; `roundtrip_phylip_widths`: every line and group width; `phylip_multi`), Clustal
+(`roundtrip_clustal`), and the auto-detection of the written format.  Helper developments:
+`Proofs/{FastaRT, StockholmRT, NexusRT, PhylipRT … PhylipRT4, ClustalRT … ClustalRT4, ReprRows}.lean`.
 
-  theorem roundtrip_phylip (strict oneline noblock) (rows) (h : reprPhylip strict rows) :
-      Phylip.parse ⟨strict, 0, 2⟩ (Phylip.write strict oneline noblock rows) = ok ⟨autoAlphabet …, L, rows⟩
-  theorem phylip_multi (as) (h : ∀ a ∈ as, reprPhylip strict a) :
-      Phylip.parseMultiple strict (as.flatMap (Phylip.write strict ol nb)) = (as.map …, ok)
-  theorem roundtrip_nexus / roundtrip_clustal / roundtrip_stockholm  (same shape; Nexus additionally
-      needs "no row spells a reserved word", which is the recorded finding `nexus-keyword-row`)
-  theorem autodetect (h : repr f rows) : Auto.detect (write f rows) = f       -- f ∈ fasta, nexus, clustal, phylip
+The multi-alignment Phylip stream (`ParseMultiple`) is `phylip_multi`.  Nothing of the property's statement is
+left open; `.gz` / `.xz` files are observed on the implementation only (compression is a trusted external).
 -/
 namespace Gv.Props.C02
 open Gv Gv.Model Gv.Model.Fmt Gv.Model.Fmt.Fasta Gv.Proofs.FastaRT
@@ -643,5 +641,151 @@ theorem roundtrip_nexus (f : Nexus.Facts) (o : POpts) (ho : normAlphabet o.alpha
     | inr e => simp [Bag.finish, Bag.detect, e, BOTH, AMINOACIDS, NUCLEOTIDS, UNKNOWN]
 
 end NexusRT
+
+/-! ## Phylip -/
+
+section PhylipRT
+open Gv.Proofs.PhylipRT Gv.Proofs.ReprRows
+open Gv.Spec.Fmt (reprPhylip)
+
+/-- **Phylip round trip, every line width and group width** (`line`, `block` > 0; Go: 60 and 10, the alignment
+length with `oneline`, the line width with `noblock`), strict and relaxed name column, every duplicate-name
+policy, auto-detected alphabet: parsing the blocks the writer lays out gives back the same names in the same
+order, the same residues, the same length and the detected alphabet.  `af` = "the parser allocates its row
+tables from the header count" (`Gen.FmtFacts.phylip_allocates_from_header`, false since the repair): with it
+the count must stay below the band where `make` is no longer prompt.  The counts must fit Go's `int64`
+(`strconv.ParseInt` of the header) — no Go slice is longer. -/
+theorem roundtrip_phylip_widths (af strict : Bool) (line block : Nat) (hl : 0 < line) (hb : 0 < block)
+    (o : POpts) (hs : o.strict = strict) (ho : normAlphabet o.alphabet = 2) (rows : List XRow)
+    (h : reprPhylip strict rows = true)
+    (hsize : rows.length ≤ 9223372036854775807 ∧ ∀ r ∈ rows, r.2.length ≤ 9223372036854775807)
+    (halloc : af = false ∨ rows.length < 134217728) :
+    ∃ L : Nat, 1 ≤ L ∧ (∀ r ∈ rows, r.2.length = L) ∧
+      Phylip.parse af o (writeLB strict line block L rows) =
+        .ok (some ⟨autoAlphabet (rows.map (·.2)), L, rows⟩) := by
+  obtain ⟨hne, L, hL1, hok, hdist⟩ := ph_repr_rows strict rows h
+  have hlen : ∀ r ∈ rows, r.2.length = L := fun r hr => (hok r hr).len
+  have hLmax : L ≤ 9223372036854775807 := by
+    cases rows with
+    | nil => exact absurd rfl hne
+    | cons r rs => rw [← hlen r (by simp)]; exact hsize.2 r (by simp)
+  exact ⟨L, hL1, hlen, parse_written af strict o hs ho line block L hl hb hL1 hLmax rows hne hsize.1 halloc hok hdist⟩
+
+/-- **Phylip round trip** for the writer as it is: all 8 combinations of `strict` / `oneline` / `noblock`
+(interleaved blocks of `PHYLIP_LINE` = 60 residues in groups of `PHYLIP_BLOCK` = 10, one line per row, one
+group per line), every representable alignment (any number of rows, any length — in particular every length
+around the multiples of 10 and 60), every duplicate-name policy, auto-detected alphabet. -/
+theorem roundtrip_phylip (af strict oneline noblock : Bool) (o : POpts) (hs : o.strict = strict)
+    (ho : normAlphabet o.alphabet = 2) (rows : List XRow) (h : reprPhylip strict rows = true)
+    (hsize : rows.length ≤ 9223372036854775807 ∧ ∀ r ∈ rows, r.2.length ≤ 9223372036854775807)
+    (halloc : af = false ∨ rows.length < 134217728) :
+    ∃ L : Nat, 1 ≤ L ∧ (∀ r ∈ rows, r.2.length = L) ∧
+      Phylip.parse af o (Phylip.write strict oneline noblock rows) =
+        .ok (some ⟨autoAlphabet (rows.map (·.2)), L, rows⟩) := by
+  obtain ⟨hne, L, hL1, hok, _⟩ := ph_repr_rows strict rows h
+  have hlen : ∀ r ∈ rows, r.2.length = L := fun r hr => (hok r hr).len
+  have hline : 0 < (if oneline then L else Gen.c_PHYLIP_LINE.toNat) := by
+    split
+    · exact hL1
+    · decide
+  have hblock : 0 < (if noblock then (if oneline then L else Gen.c_PHYLIP_LINE.toNat) else Gen.c_PHYLIP_BLOCK.toNat) := by
+    split
+    · exact hline
+    · decide
+  obtain ⟨L', hL1', hlen', hp⟩ := roundtrip_phylip_widths af strict _ _ hline hblock o hs ho rows h hsize halloc
+  have hLL : L' = L := by
+    cases rows with
+    | nil => exact absurd rfl hne
+    | cons r rs => rw [← hlen r (by simp), ← hlen' r (by simp)]
+  subst hLL
+  exact ⟨L', hL1', hlen', by rw [write_eq strict oneline noblock rows L' hne hlen]; exact hp⟩
+
+/-- non-vacuity: a strict-representable protein alignment with a gap, a numeric name and a 10-byte name -/
+example : reprPhylip true [([49, 50], [65, 82, 45, 76]), ([97, 98, 99, 100, 101, 102, 103, 104, 105, 106], [97, 69, 68, 42])] = true := by
+  decide
+
+/-- the theorem's conclusion evaluated on that alignment (strict names, interleaved layout) -/
+example : Phylip.parse false ⟨true, 0, 2⟩ (Phylip.write true false false
+      [([49, 50], [65, 82, 45, 76]), ([97, 98, 99, 100, 101, 102, 103, 104, 105, 106], [97, 69, 68, 42])]) =
+    .ok (some ⟨AMINOACIDS, 4, [([49, 50], [65, 82, 45, 76]), ([97, 98, 99, 100, 101, 102, 103, 104, 105, 106], [97, 69, 68, 42])]⟩) := by
+  decide
+
+
+/-- **Multi-alignment Phylip streams** (`ParseMultiple`, e.g. bootstrap replicates): writing any list of
+representable alignments one after the other (any of the 8 layouts) and parsing the stream gives back every
+alignment — names, order, residues, length (`alnOf`: the length of its first row), detected alphabet — and
+no error, whatever the fuel of the model's loop above the number of alignments. -/
+theorem phylip_multi (af strict oneline noblock : Bool) (o : POpts) (hs : o.strict = strict)
+    (ho : normAlphabet o.alphabet = 2) (as : List (List XRow)) (h : ∀ a ∈ as, reprPhylip strict a = true)
+    (hsize : ∀ a ∈ as, a.length ≤ 9223372036854775807 ∧ ∀ r ∈ a, r.2.length ≤ 9223372036854775807)
+    (halloc : af = false ∨ ∀ a ∈ as, a.length < 134217728) (fuel : Nat) (hf : as.length + 1 ≤ fuel) :
+    Phylip.parseMulti af o fuel { inp := as.flatMap (Phylip.write strict oneline noblock) } [] =
+      .done (as.map alnOf) true := by
+  have hgood : ∀ a ∈ as, Good af strict a := fun a ha =>
+    ph_good af strict a (h a ha) (hsize a ha) (halloc.imp id (fun hh => hh a ha))
+  have := multi_written af strict oneline noblock o hs ho as hgood fuel
+    ⟨as.flatMap (Phylip.write strict oneline noblock), .eof, false⟩ [] hf (At.fresh .eof)
+  simpa using this
+
+/-- the same with the fuel the oracle gives the loop (`len + 2`) -/
+theorem phylip_multi_oracle_fuel (af strict oneline noblock : Bool) (o : POpts) (hs : o.strict = strict)
+    (ho : normAlphabet o.alphabet = 2) (as : List (List XRow)) (h : ∀ a ∈ as, reprPhylip strict a = true)
+    (hsize : ∀ a ∈ as, a.length ≤ 9223372036854775807 ∧ ∀ r ∈ a, r.2.length ≤ 9223372036854775807)
+    (halloc : af = false ∨ ∀ a ∈ as, a.length < 134217728) :
+    Phylip.parseMulti af o ((as.flatMap (Phylip.write strict oneline noblock)).length + 2)
+      { inp := as.flatMap (Phylip.write strict oneline noblock) } [] = .done (as.map alnOf) true :=
+  phylip_multi af strict oneline noblock o hs ho as h hsize halloc _
+    (by have := stream_length strict oneline noblock as; omega)
+
+/-- non-vacuity and the conclusion evaluated: two alignments of different shapes in one relaxed stream -/
+example : Phylip.parseMulti false {} 3
+      { inp := List.flatMap (Phylip.write false false false) [[([97], [65, 67]), ([98], [71, 84])], [([49], [65, 45, 67])]] } [] =
+    .done [alnOf [([97], [65, 67]), ([98], [71, 84])], alnOf [([49], [65, 45, 67])]] true := by
+  rfl
+
+end PhylipRT
+
+/-! ## Clustal -/
+
+section ClustalRT
+open Gv.Proofs.ClustalRT Gv.Proofs.ReprRows
+open Gv.Spec.Fmt (reprClustal upperName)
+
+/-- **Clustal round trip**: for every representable alignment (any number of rows, any length: any number
+of blocks of `CLUSTAL_LINE` = 50 residues with their cumulative counts and conservation lines), whatever
+alphabet the writer is given for the conservation line, every duplicate-name policy, with or without the
+row-index guard (`c`), auto-detected alphabet: parsing the writer's output gives back the same names in the
+same order, the same residues, the same length and the detected alphabet.  The header line carries the
+build's version text, which must not contain a line break (`\n`, `\r`) or NUL — with one the header line
+would end early; the cumulative counts must fit Go's `int64` (a longer Go string does not exist). -/
+theorem roundtrip_clustal (c : Bool) (version : Seq) (hv : ∀ b ∈ version, b ≠ 10 ∧ b ≠ 13 ∧ b ≠ 0)
+    (alphabet : Nat) (o : POpts) (ho : normAlphabet o.alphabet = 2) (rows : List XRow)
+    (h : reprClustal rows = true) (hsize : ∀ r ∈ rows, r.2.length ≤ 9223372036854775807) :
+    ∃ L : Nat, 1 ≤ L ∧ (∀ r ∈ rows, r.2.length = L) ∧
+      Clustal.parse c o (Clustal.write version alphabet rows) =
+        .ok ⟨autoAlphabet (rows.map (·.2)), L, rows⟩ := by
+  obtain ⟨hne, L, hL1, hok, hdist⟩ := cl_repr_rows rows h
+  have hlen : ∀ r ∈ rows, r.2.length = L := fun r hr => (hok r hr).len
+  have hLmax : L ≤ 9223372036854775807 := by
+    cases rows with
+    | nil => exact absurd rfl hne
+    | cons r rs => rw [← hlen r (by simp)]; exact hsize r (by simp)
+  exact ⟨L, hL1, hlen, parse_written c version hv alphabet o ho L hL1 hLmax rows hne hok hdist⟩
+
+/-- the theorem at the version text of the harness build (`version.Version` = "Unset") -/
+theorem roundtrip_clustal_harness (c : Bool) (alphabet : Nat) (rows : List XRow) (h : reprClustal rows = true)
+    (hsize : ∀ r ∈ rows, r.2.length ≤ 9223372036854775807) :
+    ∃ L : Nat, Clustal.parse c {} (Clustal.write [85, 110, 115, 101, 116] alphabet rows) =
+      .ok ⟨autoAlphabet (rows.map (·.2)), L, rows⟩ := by
+  obtain ⟨L, _, _, hp⟩ := roundtrip_clustal c [85, 110, 115, 101, 116] (by decide) alphabet {} (by decide) rows h hsize
+  exact ⟨L, hp⟩
+
+/-- non-vacuity: a representable protein alignment with a gap and a numeric name -/
+example : reprClustal [([49, 50], [65, 82, 45, 76]), ([115, 50], [97, 69, 68, 42])] = true := by decide
+
+/-- the version hypothesis is needed: with a line break in the version text the writer's output is rejected -/
+example : Clustal.parse true {} (Clustal.write [10] 0 [([97], [65, 76])]) = .error := by decide
+
+end ClustalRT
 
 end Gv.Props.C02
